@@ -1,5 +1,6 @@
 import DaskModel.Model.Structural
 import DaskModel.Lemmas.StructuralLemmas
+import DaskModel.Lemmas.PadLemmas
 import DaskModel.Generated.ChunkTolerance
 /-!
 # C24 — structural array operations equal NumPy (theorems)
@@ -86,95 +87,52 @@ theorem repeat_den {α} (slabs : List (List α)) (r : Nat) :
   | cons s ss ih => simp only [List.map_cons, List.flatten_cons, List.flatMap_append, ih]
 
 
-/-- **pad_reuse_den_partial**: for pad widths that do not exceed the axis (`≤ n`, for reflect `≤ n-1`)
-    the three-piece plan of `pad_reuse` is NumPy's periodic extension. -/
-theorem pad_reuse_den_partial {α} [Inhabited α] (mode : PadMode) (xs : List α) (l r : Nat)
-    (hl : l + (if mode = .reflect then 1 else 0) ≤ xs.length)
-    (hr : r + (if mode = .reflect then 1 else 0) ≤ xs.length) :
-    padReuse mode xs l r = padSpec mode xs l r := by
-  unfold padSpec
-  rw [range3]
-  have hmid : (List.range xs.length).map (fun i => xs.getD (padIndex mode xs.length (((l + i : Nat) : Int) - l)) default) = xs := by
-    conv => rhs; rw [self_eq_map_range xs]
-    apply List.map_congr_left
-    intro i hi
-    have hi : i < xs.length := by simpa using hi
-    have : ((l + i : Nat) : Int) - l = (i : Int) := by omega
-    rw [this, padIndex_mid mode _ _ hi]
-  rw [hmid]
-  cases mode
-  · -- reflect
-    have hl : l + 1 ≤ xs.length := by simpa using hl
-    have hr : r + 1 ≤ xs.length := by simpa using hr
-    simp only [padReuse, pySlice]
-    have b1 : pyBound xs.length 1 = 1 := pyBound_nat xs.length 1 (by omega)
-    have b2 : pyBound xs.length ((l : Int) + 1) = l + 1 := by
-      have : (l : Int) + 1 = ((l + 1 : Nat) : Int) := by omega
-      rw [this, pyBound_nat _ _ (by omega)]
-    have b3 : pyBound xs.length ((xs.length : Int) - r - 1) = xs.length - r - 1 := pyBound_sub1 _ _ (by omega)
-    have b4 : pyBound xs.length ((xs.length : Int) - 1) = xs.length - 1 := by
-      have := pyBound_sub xs.length 1 (by omega); simpa using this
-    rw [b1, b2, b3, b4]
+/-- **pad_reuse_den** (full): for every pad width — also wider than the axis — the pieces `pad_reuse` concatenates on
+    each side are NumPy's periodic extension (`np.pad` mode reflect / symmetric / wrap). -/
+theorem pad_reuse_den {α} [Inhabited α] (mode : PadMode) (xs : List α) (l r : Nat)
+    (h : 0 < xs.length ∨ (l = 0 ∧ r = 0)) : padReuse mode xs l r = some (padSpec mode xs l r) := by
+  unfold padReuse
+  by_cases h0 : l = 0 ∧ r = 0
+  · obtain ⟨rfl, rfl⟩ := h0
+    simp only [and_self, if_true]
+    congr 1
+    unfold padSpec
+    simp only [Nat.zero_add, Nat.add_zero]
+    by_cases hn : 0 < xs.length
+    · conv => lhs; rw [self_eq_map_range xs]
+      apply List.map_congr_left
+      intro i hi
+      have hi : i < xs.length := by simpa using hi
+      have := padIndex_mid mode xs.length i hi
+      simp only [Int.natCast_zero, Int.sub_zero]
+      rw [this]
+    · have : xs = [] := List.eq_nil_of_length_eq_zero (by omega)
+      subst this; rfl
+  · rw [if_neg h0]
+    have hn : 0 < xs.length := by rcases h with h | h; exact h; exact absurd h h0
+    rw [if_neg (by omega)]
+    congr 1
+    unfold padSpec
+    rw [range3, padSide_before mode xs hn l, padSide_after mode xs hn r]
     congr 1
     · congr 1
-      have hlen : (((xs.drop 1).take (l + 1 - 1)).reverse).length = l := by simp; omega
-      refine piece_eq default _ _ _ hlen (fun j hj => ?_)
-      have := getD_reverse_slice default xs 1 (l + 1 - 1) j (by omega) (by omega)
-      rw [this, padIndex_refl_left _ _ _ hl hj]
-      congr 1; omega
-    · have hlen : (((xs.drop (xs.length - r - 1)).take (xs.length - 1 - (xs.length - r - 1))).reverse).length = r := by simp; omega
-      refine piece_eq default _ _ _ hlen (fun j hj => ?_)
-      have := getD_reverse_slice default xs (xs.length - r - 1) (xs.length - 1 - (xs.length - r - 1)) j (by omega) (by omega)
-      rw [this, padIndex_refl_right _ _ _ hr hj]
-      congr 1; omega
-  · -- symmetric
-    have hl : l ≤ xs.length := by simpa using hl
-    have hr : r ≤ xs.length := by simpa using hr
-    simp only [padReuse, pySlice]
-    rw [pyBound_nat _ _ hl, pyBound_sub _ _ hr]
-    congr 1
-    · congr 1
-      have hlen : (((xs.drop 0).take (l - 0)).reverse).length = l := by simp; omega
-      refine piece_eq default _ _ _ hlen (fun j hj => ?_)
-      have := getD_reverse_slice default xs 0 (l - 0) j (by omega) (by omega)
-      rw [this, padIndex_sym_left _ _ _ hl hj]
-      congr 1; omega
-    · have hlen : (((xs.drop (xs.length - r)).take (xs.length - (xs.length - r))).reverse).length = r := by simp; omega
-      refine piece_eq default _ _ _ hlen (fun j hj => ?_)
-      have := getD_reverse_slice default xs (xs.length - r) (xs.length - (xs.length - r)) j (by omega) (by omega)
-      rw [this, padIndex_sym_right _ _ _ hr hj]
-      congr 1; omega
-  · -- wrap
-    have hl : l ≤ xs.length := by simpa using hl
-    have hr : r ≤ xs.length := by simpa using hr
-    simp only [padReuse, pySlice]
-    rw [pyBound_sub _ _ hl, pyBound_nat _ _ hr]
-    congr 1
-    · congr 1
-      have hlen : ((xs.drop (xs.length - l)).take (xs.length - (xs.length - l))).length = l := by simp; omega
-      refine piece_eq default _ _ _ hlen (fun j hj => ?_)
-      have := getD_slice default xs (xs.length - l) (xs.length - (xs.length - l)) j (by omega) (by omega)
-      rw [this, padIndex_wrap_left _ _ _ hl hj]
-    · have hlen : ((xs.drop 0).take (r - 0)).length = r := by simp; omega
-      refine piece_eq default _ _ _ hlen (fun j hj => ?_)
-      have := getD_slice default xs 0 (r - 0) j (by omega) (by omega)
-      rw [this, padIndex_wrap_right _ _ _ hr hj]
-      congr 1; omega
+      conv => lhs; rw [self_eq_map_range xs]
+      apply List.map_congr_left
+      intro i hi
+      have hi : i < xs.length := by simpa using hi
+      have e : ((l + i : Nat) : Int) - (l : Int) = (i : Int) := by omega
+      rw [e, padIndex_mid mode _ _ hi]
+    · apply List.map_congr_left
+      intro q _
+      congr 2
+      omega
 
-example : padReuse .reflect [1, 2, 3] 2 2 = [3, 2, 1, 2, 3, 2, 1] := by rfl
+example : padReuse .reflect [1, 2, 3] 2 2 = some [3, 2, 1, 2, 3, 2, 1] := by decide
 example : padSpec .symmetric [1, 2, 3] 2 3 = [2, 1, 1, 2, 3, 3, 2, 1] := by rfl
-
-/-- **pad_reuse_refuted** (DESIGN.md §6 #16, known finding `pad:<mode>:width-exceeds-axis`): without the
-    width hypothesis the plan is *not* NumPy's pad — `da.pad(x, 3, mode="symmetric")` on a length-1 axis
-    returns 3 elements where NumPy returns 7.  Replayed on the real code by `corpus/C24`. -/
-theorem pad_reuse_refuted :
-    ¬ (∀ (mode : PadMode) (xs : List Int) (l r : Nat), padReuse mode xs l r = padSpec mode xs l r) := by
-  intro h
-  have := h .symmetric [1] 3 3
-  revert this; decide
-
-theorem pad_reuse_wrong_shape : (padReuse .symmetric [(1 : Int)] 3 3).length = 3 ∧ (padSpec .symmetric [(1 : Int)] 3 3).length = 7 := by
-  decide
+/-- the former defect (DESIGN.md §6 #16): a pad wider than the axis — `pad_reuse` used to return 3 elements here -/
+example : padReuse .symmetric [(1 : Int)] 3 3 = some [1, 1, 1, 1, 1, 1, 1] := by decide
+example : padReuse .wrap [1, 2, 3] 4 7 = some [3, 1, 2, 3, 1, 2, 3, 1, 2, 3, 1, 2, 3, 1] := by decide
+example : padReuse .wrap ([] : List Int) 1 0 = none := by decide
 
 /-- **expand_tuple_spec**: the `assert sum(chunks) == sum(out)` of `expand_tuple` never fires, and no empty chunk is produced -/
 theorem expand_tuple_spec (cs : List Nat) (f : Nat) (hf : 0 < f) :
